@@ -129,6 +129,27 @@ CHECKS = {
         note='Verdict comes from the interpreter run; model/interpreter disagreements are recorded as drift (static extraction is an '
              'over-approximation). CPython 3.12, bs4 4.15 as installed; reload/zipimport/frozen are out.',
         technique='TLA+ model of the import system over module bodies extracted from source; TLC-enumerated import scripts run in fresh interpreters; recorded module execution order compared with the model'),
+    'C11': dict(
+        category='model_checking',
+        text='CssDecl (NameKey, Insensitive) states the case rules per document type; TLC enumerates one logical tree with tag names, '
+             'attribute names and values in lower/UPPER/Mixed case as HTML (case preserved through the API), XML and XHTML against selectors '
+             'spelling the same names/values in each case with and without i/s, for =, ~=, ^=, != and type/class/id; every state is replayed '
+             'into soupsieve.select. The same logical tree parsed by html.parser, lxml, html5lib and lxml-xml (plain and XHTML) is projected '
+             'back to an abstract document and the recorded selects - including every HTML-only pseudo-class on plain XML - are validated by '
+             'TLC against CssDecl (Trace_Select).',
+        design_ref='§6 C11',
+        note='ASCII letters only (Python re.I is Unicode-wide, CSS is ASCII-insensitive: not gated); <= 2 children exhaustively.',
+        technique='TLA+ reference semantics parameterised by document type; TLC enumeration replayed into the code; TLC validation of selects recorded on parser-built trees'),
+    'C12': dict(
+        category='model_checking',
+        text='CssDecl (ElemNsOk, AttrNsOk, implied universal under a default namespace) states the namespace rules; TLC enumerates '
+             'namespace-aware documents (XML builder, html5-style XHTML root; element namespaces {none,U1,U2,XHTML}, document prefixes '
+             'independent of the map, attributes in {none,U1,U2}) x 8 prefix maps x 21 element/attribute selector forms; every state is '
+             'replayed into soupsieve.select; documents parsed by lxml-xml (default, prefixed, redeclared, undeclared) and html5lib '
+             'foreign content are projected back and the recorded selects validated by TLC.',
+        design_ref='§6 C12',
+        note='Namespace-aware trees only; <= 2 children exhaustively; selectors spelling a literal "p:a" attribute name via escapes are not generated.',
+        technique='TLA+ namespace semantics; TLC enumeration replayed into the code; TLC validation of selects recorded on parser-built trees'),
 }
 
 PENDING = {}
